@@ -110,7 +110,8 @@ var containerTags = []string{"textarea", "title", "pre", "option", "td", "li", "
 // element, no attribute) and the canary are asserted for them.
 var rawTextTags = map[string]bool{"xmp": true, "iframe": true, "noembed": true, "noframes": true}
 
-var sinks = []string{"in:textarea", "in:title", "in:pre", "in:option", "in:td", "in:li", "in:button", "in:h1", "in:a", "in:label", "in:code", "in:summary", "in:noscript", "in:xmp", "in:iframe", "in:noembed", "in:noframes", "nsattr", "pretext", "prevtext", "preattr", "prebound", "boundmustache", "boundmustacheclass", "classmix", "stylemix", "stylemixstr", "twotext", "twoattr", "twoloop", "vtext:xmp", "vtext:iframe", "vtext:noembed", "vtext:noframes", "vtext:textarea", "vtext:title", "vtext:noscript", "elsefor", "elseforattr", "elseiffor", "text", "vtext", "attr", "bound", "vbind", "class", "style", "loop", "loopattr", "loopchild", "incstatic", "incbound", "incattr", "inctplroot", "inctplrootattr", "slotinc", "slotincplain", "slotprop", "layout", "layoutattr", "ifself", "elseself"}
+var sinks = []string{"in:textarea", "in:title", "in:pre", "in:option", "in:td", "in:li", "in:button", "in:h1", "in:a", "in:label", "in:code", "in:summary", "in:noscript", "in:xmp", "in:iframe", "in:noembed", "in:noframes", "nsattr", "pretext", "prevtext", "preattr", "prebound", "boundmustache", "boundmustacheclass", "classmix", "stylemix", "stylemixstr", "twotext", "twoattr", "twoloop", "pre:xmp", "pre:iframe", "pre:noembed", "pre:noframes", "pre:textarea", "pre:title",
+	"textpipe", "textcall", "textternary", "attrpipe", "boundpipe", "boundcall", "boundternary", "vtextpipe", "vtextcall", "vtextternary", "vtextor", "looppipe", "vtext:xmp", "vtext:iframe", "vtext:noembed", "vtext:noframes", "vtext:textarea", "vtext:title", "vtext:noscript", "elsefor", "elseforattr", "elseiffor", "text", "vtext", "attr", "bound", "vbind", "class", "style", "loop", "loopattr", "loopchild", "incstatic", "incbound", "incattr", "inctplroot", "inctplrootattr", "slotinc", "slotincplain", "slotprop", "layout", "layoutattr", "ifself", "elseself"}
 var encs = []string{"bare", "if", "else", "tplif", "nested", "loopchild", "elseif"}
 
 // tokens: the hostile alphabet. The first coreN are enumerated exhaustively.
@@ -173,6 +174,12 @@ func build(c Case) program {
 		}
 		return program{tpl: wrap(c.Enc, open+n.LS+`{{ v }}`+n.RS+close), useNb: true, rawish: rawTextTags[tag]}
 	}
+	if strings.HasPrefix(c.Sink, "pre:") {
+		// a raw-text / RCDATA element inside a <pre> that has several children (written by the
+		// preformatted writer): the matching end tag in the value must stay text there, too
+		tag := strings.TrimPrefix(c.Sink, "pre:")
+		return program{tpl: wrap(c.Enc, `<pre>listing: <`+tag+` data-m="s">`+n.LS+`{{ v }}`+n.RS+`</`+tag+`> end <b>c</b></pre>`), useNb: true, rawish: rawTextTags[tag]}
+	}
 	if strings.HasPrefix(c.Sink, "vtext:") {
 		// v-text on the special containers (raw text, RCDATA, noscript)
 		tag := strings.TrimPrefix(c.Sink, "vtext:")
@@ -208,6 +215,32 @@ func buildSink(c Case, n nb) program {
 		return program{tpl: wrap(c.Enc, `<p data-m="s" :title="{{ v }}" v-bind:lang="x{{ v }}">x</p>`), attr: "title"}
 	case "boundmustacheclass":
 		return program{tpl: wrap(c.Enc, `<p data-m="s" class="st" :class="{{ v }}">x</p>`), attr: "class"}
+	// the value reaches the sink through an expression that is not a plain variable: a filter,
+	// a function call, a ternary, a logical operator (same is the identity function)
+	case "textpipe":
+		return program{tpl: wrap(c.Enc, `<p data-m="s">`+n.LS+`{{ v | same }}`+n.RS+`</p>`), useNb: true}
+	case "textcall":
+		return program{tpl: wrap(c.Enc, `<p data-m="s">`+n.LS+`{{ same(v) }}`+n.RS+`</p>`), useNb: true}
+	case "textternary":
+		return program{tpl: wrap(c.Enc, `<p data-m="s">`+n.LS+`{{ yes ? v : 'x' }}`+n.RS+`</p>`), useNb: true}
+	case "attrpipe":
+		return program{tpl: wrap(c.Enc, `<p data-m="s" title="`+n.LS+`{{ v | same }}`+n.RS+`" lang="{{ same(v) }}">x</p>`), attr: "title", useNb: true}
+	case "boundpipe":
+		return program{tpl: wrap(c.Enc, `<p data-m="s" :title="v | same">x</p>`), attr: "title"}
+	case "boundcall":
+		return program{tpl: wrap(c.Enc, `<p data-m="s" :title="same(v)" v-bind:lang="same(v)">x</p>`), attr: "title"}
+	case "boundternary":
+		return program{tpl: wrap(c.Enc, `<p data-m="s" :title="no ? 'x' : v">x</p>`), attr: "title"}
+	case "vtextpipe":
+		return program{tpl: wrap(c.Enc, `<p data-m="s" v-text="v | same">old</p>`)}
+	case "vtextcall":
+		return program{tpl: wrap(c.Enc, `<p data-m="s" v-text="same(v)">old</p>`)}
+	case "vtextternary":
+		return program{tpl: wrap(c.Enc, `<p data-m="s" v-text="yes ? v : 'anonymous'">old</p>`)}
+	case "vtextor":
+		return program{tpl: wrap(c.Enc, `<ul><li v-if="no">n</li><li v-else data-m="s" v-text="same(v) | same">old</li></ul>`)}
+	case "looppipe":
+		return program{tpl: wrap(c.Enc, `<ul><li v-for="i in items" data-m="s" v-text="i | same">old</li></ul>`)}
 	case "classmix":
 		// a static class / style written with a mustache next to a bound one: the merged value
 		// holds data and must not be interpolated (again)
@@ -317,6 +350,9 @@ func buildSink(c Case, n nb) program {
 	panic("unknown sink " + c.Sink)
 }
 
+// funcs: same is the identity function (whatever it is given comes back unchanged).
+var funcs = vuego.FuncMap{"same": func(v any) any { return v }}
+
 func data(v string) map[string]any { return dataC("", v) }
 
 func dataC(carrier, v string) map[string]any {
@@ -333,9 +369,9 @@ func renderC(p program, carrier, v string) (string, error) {
 	var buf bytes.Buffer
 	var err error
 	if p.files != nil {
-		err = vuego.NewFS(memfs.FromMap(p.files)).Load("page.vuego").Fill(dataC(carrier, v)).Render(context.Background(), &buf)
+		err = vuego.NewFS(memfs.FromMap(p.files), vuego.WithFuncs(funcs)).Load("page.vuego").Fill(dataC(carrier, v)).Render(context.Background(), &buf)
 	} else {
-		err = vuego.New().Fill(dataC(carrier, v)).RenderString(context.Background(), &buf, p.tpl)
+		err = vuego.New(vuego.WithFuncs(funcs)).Fill(dataC(carrier, v)).RenderString(context.Background(), &buf, p.tpl)
 	}
 	return buf.String(), err
 }
